@@ -498,6 +498,12 @@ pub fn make(spec: &Value, rng: &mut Rng) -> Result<Rig, String> {
             }
             rig!(b, [i], [Box::new(OutPkt::new(o))])
         }
+        "Hasher" => {
+            // the digest is pushed when the block is dropped (spec flag drop_flush)
+            let (i, r) = ring_in::<u8>(spec, 0, rng);
+            let (b, o) = rustradio::hasher::sha512(r);
+            rig!(b, [i], [Box::new(OutPkt::new(o))])
+        }
         "Il2pDeframer" => {
             let (i, r) = ring_in::<u8>(spec, 0, rng);
             let (b, o) = Il2pDeframer::new(r);
